@@ -1,6 +1,6 @@
 (* C08 — proofs, part 2: the LAPACK hand-over (row-major array read column-major).  All sizes n. *)
 From Coq Require Import Reals List ZArith Bool Lia Lra Arith.
-From DuneV Require Import C08_Model C08_Spec.
+From DuneV Require Import Params_gen C08_Model C08_Spec.
 Import ListNotations.
 
 Section Index.
@@ -94,8 +94,7 @@ Proof.
 Qed.
 
 (* ------------------------------------------------------------------ symmetric routines *)
-Definition c08_syev_args_of (tag : bool) (n : nat) (A : nat -> nat -> R) : c08_syev_args :=
-  C08Syev tag true n (c08_flatten n A) n (3 * n - 1).
+Definition c08_syev_args_of (tag : bool) (n : nat) (A : nat -> nat -> R) : c08_syev_args := c08_syev_call tag n A.
 
 Lemma P_handover_sym : forall n A syev w V,
   c08_symmetric n A ->
@@ -105,8 +104,8 @@ Lemma P_handover_sym : forall n A syev w V,
   (forall i, (i < n)%nat -> c08_right_eig n A (nth i w 0) (c08_row_of V i)) /\
   c08_orthonormal n (c08_row_of V).
 Proof.
-  intros n A syev w V Hsym Hc. unfold c08_sym_lapack. fold (c08_syev_args_of true n A).
-  destruct (syev _) as [[w' a'] info]. unfold c08_syev_contract, c08_syev_args_of in Hc. simpl in Hc.
+  intros n A syev w V Hsym Hc. unfold c08_sym_lapack. unfold c08_syev_args_of in Hc.
+  destruct (syev _) as [[w' a'] info]. unfold c08_syev_contract, c08_syev_call in Hc. simpl in Hc.
   destruct (info =? 0)%Z eqn:E; [|discriminate]. apply Z.eqb_eq in E.
   intros H. inversion H; subst w' V. clear H.
   destruct (Hc E) as (Hlen & Hasc & Hv). specialize (Hv eq_refl). destruct Hv as [Heig Horth].
@@ -122,7 +121,7 @@ Qed.
 (* info <> 0 is reported, never swallowed *)
 Lemma P_handover_sym_info : forall (syev : c08_syev_args -> list R * list R * Z) tag n A,
   (c08_sym_lapack 0 syev tag n A = C08_InvalidState <->
-   snd (syev (C08Syev tag true n (c08_flatten n A) n (3 * n - 1))) <> 0%Z).
+   snd (syev (c08_syev_call tag n A)) <> 0%Z).
 Proof.
   intros syev tag n A. unfold c08_sym_lapack. destruct (syev _) as [[w a'] info]. simpl.
   destruct (info =? 0)%Z eqn:E.
@@ -217,7 +216,7 @@ Lemma P_ex_sym : c08_symmetric 2 c08_ex_A /\
 Proof.
   split; [|split].
   - intros i j Hi Hj. destruct i as [|[|i]], j as [|[|j]]; try lia; reflexivity.
-  - unfold c08_syev_contract, c08_ex_syev, c08_syev_args_of. simpl. intros _.
+  - unfold c08_syev_contract, c08_ex_syev, c08_syev_args_of, c08_syev_call. simpl. intros _.
     split; [reflexivity|]. split.
     + intros i Hi. assert (i = 0%nat) by lia. subst i. simpl. lra.
     + intros _. split.
@@ -261,4 +260,55 @@ Proof.
       * exists 0%nat. split; [lia|]. unfold c08_colmajor; simpl; lra.
       * exists 0%nat. split; [lia|]. unfold c08_colmajor; simpl; lra.
   - reflexivity.
+Qed.
+
+(* ------------------------------------------------------------------ the calls as the source writes them (constants re-read) *)
+(* ?syev: jobz = 'v' exactly when eigenvectors are requested, upper triangle, lda = n, lwork = 3n - 1 *)
+Lemma P_syev_call_literal : forall (T : Type) tag n (A : nat -> nat -> T),
+  c08_syev_call tag n A = C08Syev tag true n (c08_flatten n A) n (3 * n - 1).
+Proof. intros T tag n A. unfold c08_syev_call, c08_lwork_sym. destruct tag; reflexivity. Qed.
+
+(* LAPACK's documented minimum workspaces: ?syev lwork >= max(1, 3n-1); ?geev lwork >= max(1, 3n), and >= 4n with vectors *)
+Lemma P_workspace : forall (T : Type) tag want n (A : nat -> nat -> T), (1 <= n)%nat ->
+  (Nat.max 1 (3 * n - 1) <= c08_sy_lwork (c08_syev_call tag n A))%nat /\
+  (Nat.max 1 (3 * n) <= c08_ge_lwork (c08_dyn_call want n A))%nat /\
+  (want = true -> (4 * n <= c08_ge_lwork (c08_dyn_call want n A))%nat) /\
+  c08_sy_lda (c08_syev_call tag n A) = n /\ c08_ge_lda (c08_dyn_call want n A) = n /\
+  c08_ge_ldvl (c08_dyn_call want n A) = n /\ c08_ge_ldvr (c08_dyn_call want n A) = n /\
+  length (c08_sy_a (c08_syev_call tag n A)) = (n * n)%nat /\ length (c08_ge_a (c08_dyn_call want n A)) = (n * n)%nat.
+Proof.
+  intros T tag want n A Hn.
+  unfold c08_syev_call, c08_dyn_call, c08_lwork_sym, c08_param_lwork_sym_mul, c08_param_lwork_sym_sub,
+    c08_param_dyn_lwork_want_mul, c08_param_dyn_lwork_nowant_mul.
+  cbn [c08_sy_lwork c08_ge_lwork c08_sy_lda c08_ge_lda c08_ge_ldvl c08_ge_ldvr c08_sy_a c08_ge_a].
+  rewrite !flatten_length. destruct want; repeat split; try lia; intros; try discriminate; lia.
+Qed.
+
+(* DynamicMatrixHelp::eigenValuesNonSym as the source now writes it IS the repaired call: left vectors of the transposed data
+   are requested exactly when eigenvectors are wanted, and vl is read *)
+Lemma P_nonsym_src_is_fixed : forall (T : Type) (d : T) geev want n A,
+  c08_nonsym_dyn_src d geev want n A = c08_nonsym_dyn_fixed d geev want n A.
+Proof. intros T d geev want n A. unfold c08_nonsym_dyn_src, c08_nonsym_dyn_fixed, c08_dyn_call. destruct want; reflexivity. Qed.
+
+Lemma P_handover_nonsym_src : forall n A geev evs V,
+  c08_geev_contract (c08_geev_args_fix n A) (geev (c08_geev_args_fix n A)) ->
+  c08_nonsym_dyn_src 0 geev true n A = C08_LOk (evs, Some V) ->
+  length evs = n /\
+  forall i, (i < n)%nat -> snd (nth i evs (0, 0)) = 0 ->
+    c08_right_eig n A (fst (nth i evs (0, 0))) (c08_row_of V i) /\ c08_nonzero n (c08_row_of V i).
+Proof. intros n A geev evs V Hc. rewrite P_nonsym_src_is_fixed. apply P_handover_nonsym_fixed. exact Hc. Qed.
+
+(* info <> 0 is reported by the non-symmetric routines too, never swallowed *)
+Lemma P_handover_nonsym_info : forall (geev : c08_geev_args -> c08_geev_out (T:=R)) want n A,
+  (c08_nonsym_dyn_src 0 geev want n A = C08_InvalidState <-> snd (geev (c08_dyn_call want n A)) <> 0%Z) /\
+  (c08_nonsym_fm geev n A = C08_InvalidState <->
+   snd (geev (C08Geev c08_param_fm_jobvl_v c08_param_fm_jobvr_v n (c08_flatten n A) n n n (c08_param_fm_lwork_mul * n))) <> 0%Z).
+Proof.
+  intros geev want n A. unfold c08_nonsym_dyn_src, c08_nonsym_fm. split.
+  - destruct (geev _) as [[[[wr wi] vl] vr] info]. simpl. destruct (info =? 0)%Z eqn:E.
+    + apply Z.eqb_eq in E. split; [discriminate | intros H; contradiction].
+    + apply Z.eqb_neq in E. split; [intros _; exact E | reflexivity].
+  - destruct (geev _) as [[[[wr wi] vl] vr] info]. simpl. destruct (info =? 0)%Z eqn:E.
+    + apply Z.eqb_eq in E. split; [discriminate | intros H; contradiction].
+    + apply Z.eqb_neq in E. split; [intros _; exact E | reflexivity].
 Qed.
